@@ -114,6 +114,10 @@ class Outer(object):
         """__qualname__ differs from __name__."""
 
 
+# a class synthesised at run time (RPC / FFI bridges do this) whose __module__ is not text
+RemoteError = type("RemoteError", (Exception,), {"__module__": None})
+
+
 POOL = {
     "ValueError": ValueError,
     "KeyError": KeyError,
@@ -146,6 +150,7 @@ POOL = {
     "LongTextError": LongTextError,
     "NestedError": Outer.NestedError,
     "UnicodeDecodeError": UnicodeDecodeError,
+    "RemoteError": RemoteError,
 }
 
 
